@@ -66,12 +66,12 @@ where
             sxy = sxy + *v * count;
             syy = syy + count.powi(2);
         }
-        let window_len = T::from(self.window_len).expect("Can convert");
-        if window_len * sxx - sx.powi(2) > T::zero() && window_len * syy - sy.powi(2) > T::zero() {
-            let out = (window_len * sxy - sx * sy)
-                / ((window_len * sxx - sx.powi(2)) * (window_len * syy - sy.powi(2))).sqrt();
+        let n = T::from(self.q_vals.len()).expect("Can convert");
+        if n * sxx - sx.powi(2) > T::zero() && n * syy - sy.powi(2) > T::zero() {
+            let out = (n * sxy - sx * sy) / ((n * sxx - sx.powi(2)) * (n * syy - sy.powi(2))).sqrt();
             debug_assert!(out.is_finite(), "value must be finite");
-            return Some(out);
+            // rounding can push a perfect correlation marginally outside [-1, 1]
+            return Some(out.max(-T::one()).min(T::one()));
         }
         Some(T::zero())
     }
